@@ -13,6 +13,7 @@ package main
 
 import (
 	"bufio"
+	"encoding/hex"
 	"encoding/json"
 	"fmt"
 	"math"
@@ -22,6 +23,7 @@ import (
 	"sort"
 	"strings"
 	"time"
+	"unicode/utf8"
 
 	"github.com/itchyny/gojq"
 	"github.com/itchyny/gojq/cli"
@@ -39,6 +41,50 @@ type caseT struct {
 	Input string   `json:"i,omitempty"` // wire form, or raw Go-literal tag for special carriers
 	Args  []string `json:"a,omitempty"`
 	Stdin string   `json:"s,omitempty"`
+	// texts that are not valid UTF-8 travel to the child as hex (encoding/json would replace the
+	// invalid bytes by U+FFFD)
+	SrcHex   string   `json:"qh,omitempty"`
+	StdinHex string   `json:"sh,omitempty"`
+	ArgsHex  []string `json:"ah,omitempty"`
+}
+
+func (c caseT) pack() caseT {
+	if !utf8.ValidString(c.Src) {
+		c.SrcHex, c.Src = "x"+hex.EncodeToString([]byte(c.Src)), ""
+	}
+	if !utf8.ValidString(c.Stdin) {
+		c.StdinHex, c.Stdin = "x"+hex.EncodeToString([]byte(c.Stdin)), ""
+	}
+	for _, a := range c.Args {
+		if !utf8.ValidString(a) {
+			c.ArgsHex = make([]string, len(c.Args))
+			for i, b := range c.Args {
+				c.ArgsHex[i] = hex.EncodeToString([]byte(b))
+			}
+			c.Args = nil
+			break
+		}
+	}
+	return c
+}
+
+func (c caseT) unpack() caseT {
+	if c.SrcHex != "" {
+		b, _ := hex.DecodeString(c.SrcHex[1:])
+		c.Src = string(b)
+	}
+	if c.StdinHex != "" {
+		b, _ := hex.DecodeString(c.StdinHex[1:])
+		c.Stdin = string(b)
+	}
+	if c.ArgsHex != nil {
+		c.Args = make([]string, len(c.ArgsHex))
+		for i, h := range c.ArgsHex {
+			b, _ := hex.DecodeString(h)
+			c.Args[i] = string(b)
+		}
+	}
+	return c
 }
 
 type findingT struct {
@@ -197,6 +243,7 @@ func child() {
 		if json.Unmarshal(sc.Bytes(), &c) != nil {
 			continue
 		}
+		c = c.unpack()
 		fmt.Fprintf(w, "START %d\n", n)
 		w.Flush()
 		var f string
@@ -222,7 +269,7 @@ func runBatch(cases []caseT) (fs map[int]string, crashed int, crashText string) 
 	cmd.Env = append(os.Environ(), "GOMEMLIMIT=3GiB", "GOMAXPROCS=2")
 	var in strings.Builder
 	for _, c := range cases {
-		b, _ := json.Marshal(c)
+		b, _ := json.Marshal(c.pack())
 		in.Write(b)
 		in.WriteByte('\n')
 	}
@@ -368,6 +415,60 @@ func main() {
 			}
 		}
 		dist["lib:index-limits"] = n
+	}
+	// path LISTS given to delpaths / setpath chains: every ordered pair and triple of a pool of
+	// overlapping and ill-typed paths (an earlier path changes the container a later one fails
+	// on; intermediate values of the natives must never reach an error message unrendered)
+	{
+		pool := []string{`["a",0]`, `["a","b"]`, `["a"]`, `[0]`, `["a",0,0]`, `["a",1]`, `[0,"x"]`, `["a",{"start":0,"end":1}]`, `[]`, `["b"]`, `[1,0]`, `"a"`, `[null]`, `["a",-1]`, `[[0]]`}
+		ins := []string{`{ s61 [ [ i1 i2 ] i2 ] }`, `[ [ i1 i2 ] i2 ]`, `{ s61 { s62 i1 } s62 [ i1 ] }`, `n`}
+		n := 0
+		for i, a := range pool {
+			for j, b := range pool {
+				lists := []string{"[" + a + "," + b + "]"}
+				if ctx.Thorough || (i+j)%4 == 0 {
+					for _, c := range pool {
+						lists = append(lists, "["+a+","+b+","+c+"]")
+					}
+				}
+				for _, l := range lists {
+					for qi, q := range []string{"delpaths(%L)", "try delpaths(%L) catch .", "reduce %L[] as $p (.; setpath($p; 1))", "try (reduce %L[] as $p (.; setpath($p; [0]))) catch .", "[getpath(%L[])?]", "try ([paths] - %L | length) catch .", "try (delpaths(%L) | tojson) catch (. | tostring)"} {
+						if !ctx.Thorough && len(l) > 40 && qi > 1 {
+							continue
+						}
+						for _, in := range ins {
+							cases = append(cases, caseT{Kind: "lib", Src: strings.ReplaceAll(q, "%L", l), Input: in})
+							n++
+						}
+					}
+				}
+			}
+		}
+		dist["lib:path-lists"] = n
+	}
+	// command entrance: every subset of the OUTPUT-mode flags with an --indent count at and beyond
+	// its limits
+	{
+		flags := []string{"-c", "--tab", "--yaml-output", "-r", "-j", "--raw-output0", "-a", "-C", "-S", "-e", "--seq"}
+		indents := [][]string{nil, {"--indent", "-1"}, {"--indent", "0"}, {"--indent", "9"}, {"--indent", "10"}, {"--indent", "-100"}, {"--indent", "x"}, {"--indent", "100000000000"}}
+		docs := []string{"{\"a\":[1,{\"b\":\"x\\ny\"}]}\n", "\"s\\u0000\" 1 null\n"}
+		n := 0
+		for m := 0; m < 1<<len(flags); m++ {
+			var fs []string
+			for i, f := range flags {
+				if m&(1<<i) != 0 {
+					fs = append(fs, f)
+				}
+			}
+			for ii, ind := range indents {
+				if !ctx.Thorough && (m+ii)%5 != 0 {
+					continue
+				}
+				cases = append(cases, caseT{Kind: "cli", Args: append(append(append([]string{}, fs...), ind...), "."), Stdin: docs[(m+ii)%len(docs)]})
+				n++
+			}
+		}
+		dist["cli:output-mode-subsets"] = n
 	}
 	// every native function of the table (internal `_names` included: they are reachable from any
 	// query text) on argument tuples from an adversarial literal set — arrays of unequal lengths,
